@@ -65,6 +65,16 @@ package json
 //@   loop 1 invariant (and (< vals 0) (MapC<String~cty.Value>.ok vm))
 //@   loop 1 invariant (forall ((k String)) (! (=> (select (MapC<String~cty.Value>.dom vm) k) (decoded_ok (select (MapC<String~cty.Value>.val vm) k) ety)) :pattern ((select (MapC<String~cty.Value>.dom vm) k))))
 //
+//@ func json.unmarshalTuple
+//@   tags C17
+//@   borrows path
+//@   let tup (mk.cty.Type (box<cty.typeTuple> (mk.cty.typeTuple mk.cty.typeImplSigil etys)))
+//@   requires (and (wf_ty tup) (not (has_opt tup)))
+//@   ensures[C17] ok: (=> (= result.1 nil.Any) (decoded_ok result.0 tup))
+//@   loop 1 invariant (and (slice.ok vals) (<= (Slice.ptr vals) 0) (= (Slice.off vals) 0) (= (Slice.len vals) idx) (<= 0 idx) (<= idx (Slice.len etys)))
+//@   loop 1 invariant (forall ((j Int)) (! (=> (and (trig j) (<= (tuple_off tup) j) (< j (+ (tuple_off tup) idx))) (conforms (vty (hval_at $H<Arr<cty.Value>> vals (- j (tuple_off tup)))) (select (tuple_arr tup) j))) :pattern ((select (tuple_arr tup) j))))
+//@   loop 1 invariant (forall ((j Int)) (! (=> (and (trig j) (<= 0 j) (< j idx)) (let ((v (hval_at $H<Arr<cty.Value>> vals j))) (and (wf_ty (vty v)) (wf_marks v) (not (has_opt (vty v)))))) :pattern ((trig j))))
+//
 // Not under contract yet (assumed to return an error or a conforming, well-formed value): the object,
 // dynamic and capsule decoders.
 //@ func json.unmarshalObject
